@@ -388,7 +388,8 @@ def get_confirmed_edges_for_node(graph: nx.MultiDiGraph, node: DSGNode, include_
     # Loop over outgoing edges
     confirmed_edges = set()
     for out_edge in iter_out_edges(graph, node):
-        if get_edge_type(out_edge) == EdgeType.INCOMPATIBILITY:
+        # Incompatibility and connection-exclusion edges do not confirm their target
+        if get_edge_type(out_edge) in (EdgeType.INCOMPATIBILITY, EdgeType.EXCLUDES):
             continue
 
         # Stop at choice nodes
